@@ -304,6 +304,7 @@ type view struct {
 	sm     *schemaModel
 	m      dbModel
 	writes writeSet
+	depth  int
 }
 
 func (v *view) put(table string, r row) {
@@ -418,6 +419,11 @@ func (v *view) output(table string, r row) []string {
 // foreign key situation (for known-finding signatures). dead is true when the
 // implementation is expected to have aborted the transaction (failure inside a cascade).
 func (v *view) delete(table string, r row) (res []string, note string, dead bool) {
+	if v.depth > 50 {
+		return []string{resDead}, "cascade-cycle", true
+	}
+	v.depth++
+	defer func() { v.depth-- }()
 	t := v.sm.tables[table]
 	// block checks first, over every index that is a foreign key target
 	for _, ix := range t.Idx {
